@@ -34,6 +34,19 @@ def step (st : Driver.Auth.St) (op : List String) (impl : String) : Driver.Auth.
   | ["u2f.reset"] => (st, "-\tna")
   | ["u2f.end"] => (st, "-\tna")
   | ["u2f.ver"] => (st, hx U2f.encodeVersion ++ "\t" ++ (if impl = hx ([0x55, 0x32, 0x46, 0x5f, 0x56, 0x32, 0x90, 0x00] : Bytes) then "ok" else "fail:version-response-is-not-U2F_V2-and-the-success-status"))
+  | ["u2f.encreg", x, y, handle, cert, sig] =>
+    match bytesOfHex x, bytesOfHex y, bytesOfHex handle, bytesOfHex cert, bytesOfHex sig with
+    | some x, some y, some handle, some cert, some sig =>
+      -- FIDO U2F raw message formats §4.3, written out independently of the model
+      let want : Bytes := [0x05, 0x04] ++ x ++ y ++ [UInt8.ofNat (handle.length % 256)] ++ handle ++ cert ++ sig ++ [0x90, 0x00]
+      (st, hx (U2f.encodeRegister ⟨[], x, y⟩ handle cert sig) ++ "\t" ++ (if impl = hx want then "ok" else "fail:registration-response-is-not-reserved-byte-key-handle-length-handle-certificate-signature-status"))
+    | _, _, _, _, _ => (st, "bad-op\tna")
+  | ["u2f.encauth", presence, counter, sig] =>
+    match presence.toNat?, counter.toNat?, bytesOfHex sig with
+    | some p, some c, some sig =>
+      let want : Bytes := [UInt8.ofNat p, UInt8.ofNat (c / 16777216), UInt8.ofNat (c / 65536 % 256), UInt8.ofNat (c / 256 % 256), UInt8.ofNat (c % 256)] ++ sig ++ [0x90, 0x00]
+      (st, hx (U2f.encodeAuth (UInt8.ofNat p) c sig) ++ "\t" ++ (if impl = hx want then "ok" else "fail:authentication-response-is-not-presence-byte-big-endian-counter-signature-status"))
+    | _, _, _ => (st, "bad-op\tna")
   | ["u2f.parse", f] =>
     match bytesOfHex f with
     | none => (st, "bad-op\tna")
@@ -43,39 +56,40 @@ def step (st : Driver.Auth.St) (op : List String) (impl : String) : Driver.Auth.
         | some m => if impl = showParsed m then "ok" else "fail:well-formed-request-frame-not-parsed-to-the-request-it-encodes"
         | none => "na"
       (st, model ++ "\t" ++ verdict)
-  | ["u2f.reg", app, chal, handle, key] =>
-    match bytesOfHex app, bytesOfHex chal, bytesOfHex handle, parseKey key with
-    | some app, some chal, some handle, some key =>
+  | ["u2f.reg", app, chal, handle, key, faults] =>
+    match bytesOfHex app, bytesOfHex chal, bytesOfHex handle, parseKey key, parseFaults faults with
+    | some app, some chal, some handle, some key, some faults =>
       let k := key.getD ⟨[], [], []⟩
-      let s0 := { st.store with calls := 0, faults := [] }
+      let s0 := { st.store with calls := 0, faults := faults }
       let out := U2f.register s0 k app chal handle
       -- the signature bytes are observed, not computed
       let rfield := (fieldOf impl "res").getD ""
       let parts := rfield.splitOn ":"
-      let (model, verdict) : String × String :=
+      -- the verdict judges the implementation's observation alone
+      let verdict : String := match parts with
+        | ["ok", x, y, h, c, s, e] =>
+          (match bytesOfHex x, bytesOfHex y, bytesOfHex h, bytesOfHex c, bytesOfHex s, bytesOfHex e with
+           | some x, some y, some h, some c, some s, some e =>
+             if faults.any Option.isSome then "fail:store-refused-the-credential-but-the-registration-succeeded" else
+             (match Spec.U2f.c17_register app chal handle key (implSnaps impl) ⟨x, y, h, c, s, e⟩ with
+              | none => "ok"
+              | some f => "fail:" ++ f)
+           | _, _, _, _, _, _ => "fail:unparsable-or-crashed")
+        | _ => if rfield = "panic" then "fail:panic" else "na"
+      let model : String :=
         match out.1 with
-        | .error _ => (s!"res=err:Other store={storeStr out.2.1}", "na")
+        | .error _ => s!"res=err:Other store={storeStr out.2.1}"
         | .ok r =>
           let sigHex := parts.getD 5 "-"
           let sig := (bytesOfHex sigHex).getD []
           let enc := U2f.encodeRegister r.key r.keyHandle r.certificate sig
-          let m := s!"res=ok:{hx r.key.x}:{hx r.key.y}:{hx r.keyHandle}:{hx r.certificate}:{hx sig}:{hx enc} store={storeStr out.2.1}"
-          let v := match parts with
-            | ["ok", x, y, h, c, s, e] =>
-              (match bytesOfHex x, bytesOfHex y, bytesOfHex h, bytesOfHex c, bytesOfHex s, bytesOfHex e with
-               | some x, some y, some h, some c, some s, some e =>
-                 (match Spec.U2f.c17_register app chal handle key (implSnaps impl) ⟨x, y, h, c, s, e⟩ with
-                  | none => "ok"
-                  | some f => "fail:" ++ f)
-               | _, _, _, _, _, _ => "fail:unparsable-or-crashed")
-            | _ => if rfield = "panic" then "fail:panic" else "na"
-          (m, v)
+          s!"res=ok:{hx r.key.x}:{hx r.key.y}:{hx r.keyHandle}:{hx r.certificate}:{hx sig}:{hx enc} store={storeStr out.2.1}"
       ({ st with store := { out.2.1 with faults := [] } }, model ++ "\t" ++ verdict)
-    | _, _, _, _ => (st, "bad-op\tna")
-  | ["u2f.auth", app, chal, handle, counter, presence, _param] =>
-    match bytesOfHex app, bytesOfHex chal, bytesOfHex handle, counter.toNat?, presence.toNat? with
-    | some app, some chal, some handle, some counter, some presence =>
-      let s0 := { st.store with calls := 0, faults := [] }
+    | _, _, _, _, _ => (st, "bad-op\tna")
+  | ["u2f.auth", app, chal, handle, counter, presence, _param, faults] =>
+    match bytesOfHex app, bytesOfHex chal, bytesOfHex handle, counter.toNat?, presence.toNat?, parseFaults faults with
+    | some app, some chal, some handle, some counter, some presence, some faults =>
+      let s0 := { st.store with calls := 0, faults := faults }
       let pb : UInt8 := UInt8.ofNat presence
       let out := U2f.authenticate s0 app chal handle counter pb
       let rfield := (fieldOf impl "res").getD ""
@@ -93,11 +107,14 @@ def step (st : Driver.Auth.St) (op : List String) (impl : String) : Driver.Auth.
           s!"res=ok:{r.presence.toNat}:{r.counter}:{hx sig}:{hx (U2f.encodeAuth r.presence r.counter sig)} store={storeStr out.2.1}"
       let verdict := match obs with
         | none => "fail:unparsable-or-crashed"
-        | some o => (match Spec.U2f.c17_authenticate app chal handle counter presence st.store.items o with
+        | some o =>
+          if faults.any Option.isSome then
+            (match o with | some _ => "fail:store-error-during-lookup-but-the-authentication-succeeded" | none => "ok")
+          else (match Spec.U2f.c17_authenticate app chal handle counter presence st.store.items o with
             | none => "ok"
             | some f => "fail:" ++ f)
       ({ st with store := { out.2.1 with faults := [] } }, model ++ "\t" ++ verdict)
-    | _, _, _, _, _ => (st, "bad-op\tna")
+    | _, _, _, _, _, _ => (st, "bad-op\tna")
   | _ => (st, "bad-op\tna")
 
 end PasskeyVerif.Driver.U2f
